@@ -1,7 +1,7 @@
 // `ra` executor (read-ahead, C11): which requests of a pipeline can be obtained from the server while
 // NONE has been answered, and which become obtainable after the application acted on the request
 // that holds the connection's reader.
-// case line: ra <u|t> <stream hex> <all | part<m> | awayR | awayD | awayW> [exp1=<k>] [exp2=<k>]
+// case line: ra <u|t> <stream hex> <all | allv | part<m> | awayR | awayD | awayW> [exp1=<k>] [exp2=<k>]
 //   exp1/exp2: how many requests the model expects in each round — the harness waits generously for
 //   that many and probes only briefly for one more (slowness can hide a difference, never create one)
 // observation: a1=<url hex,..> a2=<url hex,..>
@@ -85,7 +85,20 @@ pub fn run_case(servers: &mut Servers, f: &[&str]) -> String {
         held.push(last);
     }
     if let Some(mut rq) = held.pop() {
-        if act == "all" {
+        if act == "allv" {
+            // the same through gathered reads only (two slices per call)
+            let mut a = vec![0u8; 2048];
+            let mut b = vec![0u8; 2048];
+            let r = rq.as_reader();
+            loop {
+                let mut sl = [std::io::IoSliceMut::new(&mut a), std::io::IoSliceMut::new(&mut b)];
+                match r.read_vectored(&mut sl) {
+                    Ok(0) | Err(_) => break,
+                    Ok(_) => {}
+                }
+            }
+            held.push(rq);
+        } else if act == "all" {
             let mut buf = vec![0u8; 4096];
             let r = rq.as_reader();
             loop {
